@@ -60,6 +60,13 @@ CHECKS = {
    note="RSV bits and UTF-8 validity are not claimed and not checked. An over-long Close turned into Close(None) counts as refusal. Token-substring laxness of the handshake (contains(\"websocket\")) is not probed beyond the menu. Trusts the reference codec/SHA-1/base64 in harness/src/props/c14.rs (SHA-1 is cross-checked against hash_key on every accepted handshake).",
    technique="differential/round-trip property testing against reference implementations; metamorphic segmentation relation with exhaustive single cuts; reference protocol state machine as oracle",
    design_ref="DESIGN.md §5 C14"),
+ "C15": dict(
+   engine="streams",
+   category="exploration",
+   text="Multipart bodies are rendered from an abstract field list (ground truth by construction): boundaries of 1-70 bchars (quoted or not, incl. '-' and '--'), 0-5 fields with name / filename / content type / extra header / exact per-field Content-Length, contents that are empty, binary, rich in CR LF '-', ending in CR / CRLF / '--', containing CRLF-- + other text, CRLF-- + a strict boundary prefix, the boundary in mid-line, one long line up to 200 KB; optional preamble/epilogue; form-data or mixed. They are delivered through a scripted chunk stream to the public Multipart stream (Multipart::new, or the extractor with MultipartConfig::buffer_limit 256/4096/70000) on a wake-driven executor under a virtual deadline. Phase cuts: short bodies whole and with EVERY single cut position; phase truncation: short bodies truncated at EVERY offset; phase general: whole / 1-byte / random multi-cuts with Pending patterns and the malformed classes (garbage after an inner boundary, unterminated header block, nested multipart, non-numeric field length, transport error). Oracle: valid bodies yield exactly the generator's fields (name, filename, content type, headers, exact content bytes) and end Ok for every chunking; truncated/malformed bodies end in an error, never Ok, never a hang, and every field delivered as complete is a true field; the Ok/error outcome and the cleanly delivered fields are the same for every chunking; the chunk stream is never pulled more than buffer limit + one chunk + 1 KiB ahead of the consumed offset. ~10^6 (quick) to 2*10^7 (thorough) (body, chunking) runs.",
+   note="Valid bodies never contain CRLF--boundary in content (RFC 2046); lying per-field Content-Length is outside the domain. One listed finding (bare CR + --boundary inside content ends the field) excludes exactly the contents that contain that byte string (counted). Trusts the renderer in harness/src/props/c15.rs.",
+   technique="property-based testing with ground truth by construction + chunking metamorphic relation + exhaustive single cuts / truncation offsets for short bodies, on a wake-driven executor with a virtual deadline",
+   design_ref="DESIGN.md §5 C15"),
  "C01": dict(
    engine="simnet",
    category="exploration",
@@ -114,6 +121,7 @@ def main():
         },
         "engines": [
             {"name": "pbt", "path": "harness/src/runner.rs", "serves_properties": ["C07","C10","C14","C18"], "kind_free_text": "parallel seeded proptest runner with shrinking, replay files, class histograms, known-findings exclusion; also enumerators for small finite spaces"},
+            {"name": "streams", "path": "harness/src/streams.rs", "serves_properties": ["C12","C13","C15"], "kind_free_text": "scripted chunk streams (generated cuts, self-waking Pending patterns, EOF or transport error, pull accounting) consumed on a paused current-thread tokio runtime under a virtual deadline (hang detector)"},
             {"name": "simnet", "path": "harness/src/simnet.rs", "serves_properties": ["C01","C02","C03","C04","C05","C06","C11","C19"], "kind_free_text": "scripted in-memory socket + paused tokio clock + interpreted handler programs driving the real HttpService/h1 dispatcher"},
         ],
         "checks": checks,
